@@ -202,11 +202,19 @@ func termBuild(b termBeh, mkSink func(i int) zapcore.WriteSyncer) *termWorld {
 		var ws zapcore.WriteSyncer = s
 		if lf.Fail {
 			ws = termFailSink{s}
+			if (b.Lvl+len(b.Fe))%2 == 0 {
+				// the failing destination is lock-protected (what zap.Open returns) and has failed before
+				ws = zapcore.Lock(ws)
+				ws.Write([]byte("an earlier entry\n"))
+			}
 		}
 		if lf.Bws {
 			bw := &zapcore.BufferedWriteSyncer{WS: s, Size: 4096, FlushInterval: time.Hour}
 			w.bws = append(w.bws, bw)
 			ws = bw
+			if b.Core == "bws-multi" {
+				ws = zapcore.NewMultiWriteSyncer(bw, termUnderCount{})
+			}
 		}
 		var en zapcore.LevelEnabler = zapcore.DebugLevel
 		if !lf.Acc && b.Core != "sampled-out" && b.Core != "inc-off" && b.Core != "tee-on-sampledout" {
@@ -217,7 +225,7 @@ func termBuild(b termBeh, mkSink func(i int) zapcore.WriteSyncer) *termWorld {
 	switch b.Core {
 	case "nop":
 		w.core = zapcore.NewNopCore()
-	case "off", "on", "bws":
+	case "off", "on", "bws", "bws-multi":
 		w.core = leaf(0)
 	case "bws-stopped":
 		// shutdown path: the buffered sink has been used and stopped before the terminal call
@@ -246,6 +254,19 @@ func termBuild(b termBeh, mkSink func(i int) zapcore.WriteSyncer) *termWorld {
 	}
 	return w
 }
+
+// termUnderCount accepts everything and reports one byte less (it trimmed the line ending), without an error.
+type termUnderCount struct{}
+
+func (termUnderCount) Write(p []byte) (int, error) {
+	if len(p) == 0 {
+		return 0, nil
+	}
+	return len(p) - 1, nil
+}
+func (termUnderCount) Sync() error { return nil }
+
+var termHangs int32
 
 func (w *termWorld) stop() {
 	for _, b := range w.bws {
@@ -393,7 +414,9 @@ func replayC06(c *Ctx, b termBeh, child bool) (finds []Finding) {
 	lg := termLogger(b, w.core, hook)
 	var recovered interface{}
 	returned := false
-	func() {
+	callDone := make(chan struct{})
+	go func() {
+		defer close(callDone)
 		defer func() {
 			recovered = recover()
 			if hook.ran == 0 {
@@ -403,6 +426,15 @@ func replayC06(c *Ctx, b termBeh, child bool) (finds []Finding) {
 		termCall(lg, b.Fe, zapcore.Level(b.Lvl), termMsgOf(b))
 		returned = true
 	}()
+	select {
+	case <-callDone:
+	case <-time.After(10 * time.Second):
+		if atomic.AddInt32(&termHangs, 1) > 3 {
+			return finds
+		}
+		add("C06/terminal-not-run", "%s: the logging call neither returned nor panicked within 10 s\n%s", desc, zapStacks())
+		return finds
+	}
 	if s, ok := recovered.(string); ok && strings.HasPrefix(s, "HARNESS") {
 		c.Inconclusive("%s: %s", desc, s)
 		return nil
